@@ -16,8 +16,8 @@ RULE = ("Hypothesis draws a DtdSpec (2-9 element declarations: EMPTY, ANY, #PCDA
         "default values; an xmlns or xmlns:prefix declaration on the root), 1-3 documents valid by construction and a generator "
         "configuration. libxml2 must accept the DTD and validate the documents (else generator reject). Oracles: generation succeeds "
         "and imports; each document parses into the generated root class with every fail_on_* option on and warnings as errors; the "
-        "infoset of serialize(parse(doc)), read by libxml2 with the DTD's attribute defaults applied, equals that of doc read the same "
-        "way (unordered where the DTD lets groups repeat, ordered and DTD-valid where repetition is confined to single elements and, "
+        "infoset of serialize(parse(doc)), read without the DTD, equals that of doc read by libxml2 with the DTD's attribute defaults "
+        "and fixed values applied (unordered where the DTD lets groups repeat, ordered and DTD-valid where repetition is confined to single elements and, "
         "with compound fields, choices of single elements). Non-trivial = the DTD uses >= 4 feature families and a document has >= 4 "
         "elements; distinct by fingerprint of (spec, documents, options).")
 ASSUMPTIONS = [
@@ -96,16 +96,21 @@ def execute(case, col):
             except Exception as e:
                 return [Failure(exc_sig("valid-document-rejected", e), f"{type(e).__name__}: {e}\ndocument: {d}{tail}", case)]
             try:
-                out = XmlSerializer(context=ctx, config=SerializerConfig(xml_declaration=False)).render(obj)
+                # DTD validity is prefix-literal: the prefixes the DTD declares are handed to the serializer as the user's prefix map
+                ns_map = {p: u for e in spec["elements"].values() if e.get("nsdecls") for p, u in e["nsdecls"]["decls"]}
+                if spec["ns"]:
+                    ns_map[None if spec["ns"]["kind"] == "default" else spec["ns"]["prefix"]] = spec["ns"]["uri"]
+                out = XmlSerializer(context=ctx, config=SerializerConfig(xml_declaration=False)).render(obj, ns_map=ns_map or None)
                 a = I.canon(D.with_defaults(dtd, rootname, d), unordered=not ordered)
-                b = I.canon(D.with_defaults(dtd, rootname, out), unordered=not ordered)
+                b = I.canon(I.parse_strict(out.encode()), unordered=not ordered)       # the output itself carries the defaults
             except Exception as e:
                 return [Failure(exc_sig("serialize-raise", e), f"{type(e).__name__}: {e}\ndocument: {d}{tail}", case)]
             if a != b:
                 return [Failure("content-differs" if ordered is False or I.canon(D.with_defaults(dtd, rootname, d), unordered=True) !=
-                                I.canon(D.with_defaults(dtd, rootname, out), unordered=True) else "order-differs",
+                                I.canon(I.parse_strict(out.encode()), unordered=True) else "order-differs",
                                 f"{I.diff(a, b)}\ninput:  {d}\noutput: {out}{tail}", case)]
-            if ordered and not val.validate(etree.fromstring(out.encode())):
+            # (DTD validity is literal about where xmlns:p attributes sit; with prefixed attributes only the infoset is compared)
+            if ordered and "attr-namespaces" not in feats and not val.validate(etree.fromstring(out.encode())):
                 return [Failure("output-not-dtd-valid", f"{val.error_log.last_error}\ninput:  {d}\noutput: {out}{tail}", case)]
     return []
 
